@@ -8,7 +8,7 @@ Specification: spec/Indexing.tla.
   (3) relabelling / ordering-mode invariance of observables (added with the model harness, see c18 part 2).
 """
 import json, random, sys
-import pv
+import pv, models, obs
 
 LABELSETS = [["A", "B", "C"], ["x1", "x10", "x2"], ["Z", "a", "_"], ["b", "A", "aa"], ["site 1", "site-2", "s"]]
 
@@ -78,7 +78,92 @@ def main():
         c.violation("recorded index table violates bijection/inverse: n=%s tab=%s" % (bad.get("n"), bad.get("tab")), s, cls="table")
         pos += v.matched + 1
     c.extra["tables_equal_to_design_level"] = ndesign
-    c.rule = "all lattices <=3 sites x 1..3 orbitals x 1..3 spins x both modes (1638), each under shuffled insertion order and %s labelling(s); non-trivial = distinct (lattice, mode)" % (3 if thorough else 1)
+
+    # (3) relabelling and ordering-mode invariance of the physics (ObsTrace.tla): the same model under renamed sites (changing the
+    # iteration order of the site map) and under spin-major ordering must give the same observables up to the induced permutation
+    base = models.catalogue(thorough)[:8] + [models.random_model(rng, "rnd%d" % k, max_modes=4, spins=(1, 2, 2, 3)) for k in range(6 if not thorough else 40)]
+    tri = [[0, 0, 0], [1, 0, 1], [0, 1, 1], [-1, 0, 0]]
+    plan, sc2 = [], []
+    for m in base:
+        M = models.nmodes(m)
+        labs = sorted(l for (l, o, s) in m["sites"])
+        new = ["z" + l.lower() for l in labs]
+        new.reverse()                                   # reverses the iteration order of the site map
+        mapping = dict(zip(labs, ["Q%d_%s" % (len(labs) - i, l) for i, l in enumerate(labs)]))
+        variants = [("ref", m, {}), ("renamed", models.rename(m, mapping), mapping), ("spin-major", dict(m, order_spins=True), {})]
+        beta = rng.choice(["0.8", "2.5"])
+        for (vn, mv, mp_) in variants:
+            s = dict(mv)
+            s["id"] = "%s#%s" % (m["id"], vn)
+            s["queries"] = [{"q": "index"}]
+            sc2.append(s)
+            plan.append((m, vn, mv, mp_, beta))
+    recs, crashed = pv.run_driver_resilient(exe, sc2, timeout=900)
+    tabs = {r["id"]: r.get("tab") for r in recs if r.get("e") == "Q"}
+    sc3, meta = [], {}
+    for (m, vn, mv, mp_, beta) in plan:
+        sid = "%s#%s" % (m["id"], vn)
+        ref_tab = tabs.get("%s#ref" % m["id"])
+        tab = tabs.get(sid)
+        if not ref_tab or not tab:
+            c.violation("model %s could not be indexed under variant %s" % (m["id"], vn), mv, cls="relabel:exception")
+            continue
+        back = {v: k for k, v in mp_.items()}
+        canon = {(t[0], t[1], t[2]): i for i, t in enumerate(ref_tab)}
+        perm = [canon[(back.get(t[0], t[0]), t[1], t[2])] for t in tab]       # library index -> reference index
+        M = len(tab)
+        inv = {v: k for k, v in enumerate(perm)}
+        rq = random.Random(hash(m["id"]) & 0xffff)
+        quads_ref = [[rq.randrange(M) for _ in range(4)] for _ in range(5)]
+        sus_ref = [[rq.randrange(M) for _ in range(4)] for _ in range(3)]
+        s = dict(mv)
+        s["id"] = sid
+        s["queries"] = obs.queries(M, beta, [[inv[x] for x in q] for q in quads_ref], [[inv[x] for x in q] for q in sus_ref], tri)
+        sc3.append(s)
+        meta[sid] = (m, vn, perm, s)
+    recs, crashed = pv.run_driver_resilient(exe, sc3, timeout=3000)
+    byq = {}
+    for r in recs:
+        if r.get("e") == "Q":
+            byq.setdefault(r["id"], []).append(r)
+    lines, info = [], []
+    for sid, (m, vn, perm, s) in meta.items():
+        c.evaluations += 1
+        if sid in crashed:
+            c.violation("library crashed on %s" % sid, s, cls="relabel:crash")
+            continue
+        try:
+            o = obs.collect(byq.get(sid, []), perm)
+        except Exception as ex:
+            c.violation("%s: %s" % (sid, ex), s, cls="relabel:exception")
+            continue
+        for e in obs.events(m["id"], vn, o):
+            lines.append(e)
+            info.append(s)
+        c.nontriv("relabel " + sid)
+    pos, guard = 0, 0
+    while pos < len(lines) and guard < 40:
+        guard += 1
+        seen, head = set(), []
+        for e in lines[:pos]:
+            if e["key"] not in seen:
+                seen.add(e["key"])
+                head.append(e)
+        v = pv.validate_trace("ObsTrace", "ObsTrace", head + lines[pos:], "C18/obs-%d" % (guard % 3), timeout=3000, heap="8g")
+        pv.tlc_or_die(v.res, "ObsTrace")
+        c.states += v.res.distinct
+        c.transitions += v.res.generated
+        if v.accepted:
+            c.traces += len(lines) - pos
+            break
+        k = pos + v.matched - len(head)
+        bad = lines[k]
+        first = [e for e in lines if e["key"] == bad["key"]][0]
+        c.traces += k - pos
+        c.violation("observable %s changes under variant '%s' by more than the induced index permutation (units of the quantum: %s vs %s)" % (
+            bad["key"], bad["var"], first["vals"][:6], bad["vals"][:6]), {"scenario": info[k], "observable": bad["key"]}, cls="relabel:invariance")
+        pos = k + 1
+    c.rule = "relabelling: %d models x {reference, renamed sites (reversed map order), spin-major ordering}; " % len(base) + "all lattices <=3 sites x 1..3 orbitals x 1..3 spins x both modes (1638), each under shuffled insertion order and %s labelling(s); non-trivial = distinct (lattice, mode)" % (3 if thorough else 1)
     c.exhaustive = True
     c.trusted = ["TLC", "harness/pv_index.hpp"]
     c.finish()
